@@ -133,6 +133,26 @@ package components
 //@   loop 0 invariant pos: 0 <= scanPos[scanner] && scanPos[scanner] <= scanTotal(scanner)
 //@   loop 0 invariant so-far: poutN[p.outParamPorts["param"]] == old(poutN[p.outParamPorts["param"]]) + scanPos[scanner] && (forall j int :: 0 <= j && j < scanPos[scanner] ==> poutAt[p.outParamPorts["param"]][old(poutN[p.outParamPorts["param"]]) + j] == scanLine(scanner, j))
 
+// StreamToSubStream (C18): exactly one carrier IP is sent, its sub-stream IS this process's in-port (so the task that
+// receives the carrier drains the upstream files themselves, in their arrival order: NewTask), and this process takes
+// nothing out of that in-port itself.
+//@ extern io/ioutil.TempFile(dir, pattern) (f, err)
+//@   modifies fsEpoch
+//@ extern (*os.File).Name(f) (res)
+//@ func (*StreamToSubStream).In(p) (res)
+//@   props C18
+//@   ensures def: "in" in p.inPorts && res == p.inPorts["in"]
+//@ func (*StreamToSubStream).OutSubStream(p) (res)
+//@   props C18
+//@   ensures def: "substream" in p.outPorts && res == p.outPorts["substream"]
+//@ func (*StreamToSubStream).Run(p)
+//@   props C18
+//@   requires wf: wfSrcOut(p.BaseProcess, "substream") && p.inPorts != nil && "in" in p.inPorts && p.inPorts["in"] != nil && p.inPorts["in"].Chan != nil
+//@   modifies *
+//@   atcall (*OutPort).Send the-carrier-wraps-the-in-port-itself[C18]: $arg0 == p.outPorts["substream"] && $arg1 != nil && $arg1.SubStream == p.inPorts["in"] && p == old(p) && p.inPorts["in"] == old(p.inPorts["in"])
+//@   ensures exactly-one-carrier[C18]: outN[old(p.outPorts["substream"])] == old(outN[p.outPorts["substream"]]) + 1
+//@   ensures takes-nothing-out-of-the-stream-itself[C18]: chanRecvN(old(p.inPorts["in"].Chan)) == old(chanRecvN(p.inPorts["in"].Chan))
+
 // IPSelectorSync: lock-step read of one item per in-port; a tuple is forwarded (each member on the out-port named like
 // its in-port) only if every member satisfies the predicate, and is dropped as a whole otherwise.
 // The predicate is assumed to be a function of the IP (selIncludes).
